@@ -9,14 +9,14 @@ GLOBAL_ASSUMPTIONS = [
     'no unsafe code is in any function under contract',
 ]
 
-LEXER_BOUNDED = ('sub-lexers: lex_spaces / lex_tabs / lex_newlines (desugaring R7), lex_hostname (R10), lex_email_address (R11), lex_hostname_token, lex_url, lex_hostport (R19), validate_scheme and 13 URL scanner functions are PROVED (units lexing, url); '
-                 'still ASSUMED in Verus: found_ok for lex_hex_number and lex_number (String / str::parse / from_str_radix; CBMC: unwinding / time-out even at length 4 resp. 2 - only the bounded runtime check rac:lexers exercises them), '
+LEXER_BOUNDED = ('sub-lexers: lex_spaces / lex_tabs / lex_newlines (desugaring R7), lex_hostname (R10), lex_email_address (R11), lex_hostname_token, lex_url, lex_hostport (R19), validate_scheme and 13 URL scanner functions are PROVED (units lexing, url), lex_hex_number (R20; unit hex_number: consumes exactly `0x` + the hexadecimal digits up to a non-alphanumeric character, radix 16; numeric value not specified); '
+                 'still ASSUMED in Verus: found_ok for lex_number (String / str::parse::<f64>; CBMC: time-out even at length 2 - only the bounded runtime check rac:lexers exercises it), '
                  'validate_local_part (arbitrary total bool: termination / panic-freedom by rac:lexers only)')
 
 PROPS = {
     'C01': dict(
         level='proof',
-        verus=['span', 'patterns', 'lexing', 'url', 'jsdoc', 'edit_distance', 'mask', 'mask_parser', 'document', 'vec_ext', 'comments', 'comments_doc', 'lhs_masker'],
+        verus=['span', 'patterns', 'lexing', 'url', 'hex_number', 'jsdoc', 'edit_distance', 'mask', 'mask_parser', 'document', 'vec_ext', 'comments', 'comments_doc', 'lhs_masker'],
         kani_quick=['lexing.whitespace_5', 'jsdoc.parse_inline_tag_4', 'jsdoc.parse_inline_tag_5'],
         rac=['lexers', 'lexer_literals', 'url_scanner', 'document_tiles', 'remove_indices', 'condense_indices', 'markdown_tokens', 'comment_frontends', 'lhs_frontend', 'typst_frontend', 'rule_spans', 'lint_group_cache'],
         kani_thorough=['lexing.whitespace_5', 'lexing.whitespace_8', 'lexing.hostname_4', 'lexing.url_4',
@@ -35,7 +35,7 @@ PROPS = {
     ),
     'C02': dict(
         level='proof',
-        verus=['lexing', 'url', 'number', 'mask', 'mask_parser', 'document', 'vec_ext', 'jsdoc', 'comments', 'comments_doc', 'lhs_masker'],
+        verus=['lexing', 'url', 'hex_number', 'number', 'mask', 'mask_parser', 'document', 'vec_ext', 'jsdoc', 'comments', 'comments_doc', 'lhs_masker'],
         kani_quick=['lexing.whitespace_5'],
         kani_thorough=['lexing.whitespace_5', 'lexing.whitespace_8', 'lexing.hostname_4', 'lexing.url_4'],
         rac=['lexers', 'lexer_literals', 'url_scanner', 'document_tiles', 'remove_indices', 'condense_indices', 'markdown_tokens'],
